@@ -157,6 +157,9 @@ inductive Op where
   | boot (c : C)
   /-- a snapshot received from the leader is installed: sink, then fsmRestore -/
   | install (c : C)
+  /-- the first half of an install only: the leader's snapshot is put into the snapshot store (its
+  sink is closed), then the process dies before fsmRestore has replaced the database, and starts again -/
+  | installCrash (c : C)
   | reap
   | restart
 deriving DecidableEq, Repr
@@ -281,6 +284,11 @@ def step (lvl : Nat) (s : SM) : Op → SM × String
       let s := { s with snaps := s.snaps ++ [.full c], fullNeeded := false, db := c, file := c, modified := false,
                         tail := [], cmds := 0, pend := pend' }
       (if lvl ≥ 1 then { s with staged := [] } else s, "ok")
+  | .installCrash c =>
+    -- the start after the crash must rebuild the database from the newest snapshot, which is now the
+    -- installed one (the clean-snapshot marker still describes the OLD database file: C03)
+    let (s', r) := restartSM { s with snaps := s.snaps ++ [.full c], fullNeeded := false, tail := [], cmds := 0, pend := none }
+    (s', r)
   | .reap =>
     match resolve s.snaps with
     | some c => if s.snaps.length > 1 then ({ s with snaps := [.full c] }, "ok") else (s, "ok")
